@@ -63,7 +63,7 @@ def g_replay(rep, nh, maxlen, view, sc, label):
     nv.write_ndjson(npath, [canon_node(i, st, nh) for i, st in nodes.items()])
     nv.write_ndjson(ppath, paths)
     opath = os.path.join(sc, "out_%s.ndjson" % label)
-    nv.harness(["list-replay", "--nodes", npath, "--paths", ppath, "--nh", str(nh), "--out", opath])
+    nv.harness("nv-list", ["list-replay", "--nodes", npath, "--paths", ppath, "--nh", str(nh), "--out", opath])
     rows = nv.read_ndjson_text(open(opath).read())
     summ = rows[-1]
     for r in rows[:-1]:
@@ -88,7 +88,7 @@ def g_replay(rep, nh, maxlen, view, sc, label):
     victim = next(n for n in nds if n["op"] == "push_back")
     victim["hs"] = [dict(h, rc=h["rc"] + 1) if h.get("live") else h for h in victim["hs"]]
     nv.write_ndjson(npath, nds)
-    nv.harness(["list-replay", "--nodes", npath, "--paths", ppath, "--nh", str(nh), "--out", opath])
+    nv.harness("nv-list", ["list-replay", "--nodes", npath, "--paths", ppath, "--nh", str(nh), "--out", opath])
     rows = nv.read_ndjson_text(open(opath).read())
     rep.notes["selftest_G_corrupted_expectation_detected"] = rows[-1]["drift"] > 0
     if rows[-1]["drift"] == 0:
@@ -99,7 +99,7 @@ def j_validate(rep, seed, ntraces, events, sc):
     paths = []
     for k in range(ntraces):
         p = os.path.join(sc, "trace_%d.ndjson" % k)
-        nv.harness(["list-record", "--seed", str(seed * 1000 + k), "--events", str(events), "--nh", "3",
+        nv.harness("nv-list", ["list-record", "--seed", str(seed * 1000 + k), "--events", str(events), "--nh", "3",
                     "--maxlen", str(4 + 2 * (k % 4)), "--elems", "3", "--out", p])
         paths.append(p)
     results = nv.validate_traces_parallel("Trace_List", paths, timeout=1500)
@@ -148,7 +148,7 @@ def j_validate(rep, seed, ntraces, events, sc):
 
 def run(tier, seed):
     rep = nv.Report(PROP, tier, seed, "model_checking")
-    nv.build_harness()
+    nv.build_harness(["nv-list"])
     sc = nv.scratch("c18")
     # MC
     cfg = os.path.join(nv.SPEC, "_gen_List_mc.cfg")
@@ -186,7 +186,7 @@ def run(tier, seed):
 
 def replay(path, seed):
     data = json.load(open(path))
-    nv.build_harness()
+    nv.build_harness(["nv-list"])
     for v in data["violations"][:5]:
         print(json.dumps(v)[:2000])
     return 1 if data["violations"] else 0
